@@ -249,6 +249,10 @@ impl<'a> Parser<'a> {
                     }
                 }
                 Some(_) => {
+                    if !object.is_empty() && !trailing_comma {
+                        return Err(self.traceback(ParseError::InvalidToken));
+                    }
+
                     trailing_comma = false;
                     let string_start = self.next()?;
                     quiet_assert(
